@@ -1156,6 +1156,7 @@ def check_topo(prop, what, tier, seed):
         # 7 vertices: sparse and dense ends only (solver-side edge-count assumptions)
         cases.append('what=%s n=7 orders=1 maxm=6 seed=%d' % (what, seed))
         cases.append('what=%s n=7 orders=1 minm=17 seed=%d' % (what, seed))
+        cases.append('what=%s n=7 orders=1 minm=7 maxm=8 seed=%d' % (what, seed))
 
     def tv(leaves, rbin):
         lines, meta = [], []
@@ -1226,7 +1227,7 @@ def check_topo(prop, what, tier, seed):
     bounds = {
         'functions_encoded': ['parmcb::greedy_fvs'] if what == 'fvs' else ['parmcb::ForestIndex', 'parmcb::detail::spanning_forest'],
         'bounds': 'every labelled simple graph on n <= %d vertices (n=6: 32768 graphs; quick: natural insertion order only for n=6) in natural, reversed(+flipped endpoints) and a seeded insertion '
-                  'order%s' % (6, '; thorough: n=7 with m<=6 or m>=17' if tier == 'thorough' else ''),
+                  'order%s' % (6, '; thorough: n=7 with m<=8 or m>=17' if tier == 'thorough' else ''),
         'outside_bounds': 'graphs on more vertices',
         'note': 'degenerate case of the technique: the input is topology only, the solver only enumerates adjacency bits; claimed as exhaustive exploration',
     }
